@@ -233,6 +233,8 @@ def main(tier, replay=None):
                     sel = True
             elif k == "R":
                 hit({"t": "read_emitted", "f": "read_skipped"}.get(r, "read_no_ctx"))
+            elif k == "X" and o[-1] == "s":
+                hit({"t": "skip_report_sent_after_all", "f": "skip_report_not_sent"}.get(r, "end_no_ctx"))
             elif k == "X":
                 hit("end_" + o[-1] if r == "t" else "end_no_ctx")
             elif k == "M":
@@ -353,7 +355,7 @@ def main(tier, replay=None):
                      "overflow_promote_level1", "overflow_promote_level2", "overflow_global_wildcard",
                      "overflow_global_with_caught_up_and_lagging", "overflow_new_change_covered_after_promotion",
                      "record_refresh_same_entry", "record_wildcard_absorbs",
-                     "event_queue_case", "event_too_large_refused", "event_promoted_to_info_buffer",
+                     "skip_report_sent_after_all", "skip_report_not_sent", "event_queue_case", "event_too_large_refused", "event_promoted_to_info_buffer",
                      "event_promoted_to_critical_buffer", "e2e_case", "e2e_event_evicted",
                      "e2e_subscribe_while_report_in_flight", "e2e_report_retransmitted", "e2e_subscriber_silent_retry",
                      "e2e_refused_by_subscriber", "e2e_chunked_priming", "e2e_min_interval_1s"]
